@@ -257,6 +257,49 @@ fn first_diff(got: &[u32], exp: &[u32]) -> String {
 /// Large operands (up to 3000 elements each) over universes from dense to sparse, with the
 /// second operand related to the first in the ways that matter to a merge: sharing its greatest
 /// or least element, contained in it, containing it, disjoint above/below.
+/// Operands made of runs: consecutive values owned by one operand only, by the other only, or by both, the run
+/// lengths drawn from 1..=70 or from a ladder bracketing powers of two — the shapes on which a merge that moves whole
+/// runs, gallops or switches strategy after a long run differs from an element-wise merge (S-C20-e: a run of h >= 7
+/// followed by a run of exactly 2h-1 of the other operand sitting on a shared value).
+fn runs(ch: &mut Choices, case: &mut Case) -> Result<(), String> {
+    const LADDER: &[u32] = &[1, 2, 3, 4, 5, 6, 7, 8, 9, 13, 15, 16, 17, 27, 31, 32, 33, 55, 63, 64, 65, 127, 128, 129];
+    let blocks = 2 + ch.draw(22);
+    let (mut a, mut b): (Vec<u32>, Vec<u32>) = (Vec::new(), Vec::new());
+    let mut next: u32 = ch.draw(3);
+    let mut longest: u32 = 0;
+    for _ in 0..blocks {
+        let owner = ch.weighted(&[38, 38, 24]);
+        let len = match (owner, ch.weighted(&[55, 30, 15])) {
+            (2, 0 | 1) => 1 + ch.draw(3),
+            (_, 0) => 1 + ch.draw(70),
+            (_, 1) => ch.pick(LADDER),
+            // twice / four times the previous run, +-1
+            _ => (longest.max(1) * if ch.chance(60) { 2 } else { 4 }).saturating_add_signed(ch.int(-1, 1) as i32).clamp(1, 300),
+        };
+        if owner != 2 {
+            longest = len;
+        }
+        for _ in 0..len {
+            if owner != 1 {
+                a.push(next);
+            }
+            if owner != 0 {
+                b.push(next);
+            }
+            next += 1;
+        }
+        next += [0, 0, 1, 5][ch.draw(4) as usize];
+    }
+    if ch.chance(50) {
+        // unsorted input with duplicates for From<Vec>
+        a.reverse();
+        b.extend_from_within(..b.len().min(3));
+    }
+    let (la, lb) = (a.len(), b.len());
+    case.label("operands_made_of_runs");
+    large_check(&a, &b, la, lb, next + 1, 9, ch, case)
+}
+
 fn random_large(ch: &mut Choices, case: &mut Case) -> Result<(), String> {
     let la = gen_len(ch);
     let lb = gen_len(ch);
@@ -381,6 +424,15 @@ pub fn property() -> Property {
                 cases_quick: 6_000,
                 cases_thorough: 60_000,
                 max_choices: 48,
+            },
+            SubCheck {
+                name: "runs",
+                rule: "operands built from 2-23 runs of consecutive values owned by one operand, the other, or both (run lengths 1-70, a ladder bracketing powers of two up to 129, or twice / four times the previous run +-1; shared runs of 1-3 values), half of them handed over unsorted with duplicates: same checks as random_large; non-trivial as there",
+                f: runs,
+                text_f: None,
+                cases_quick: 20_000,
+                cases_thorough: 400_000,
+                max_choices: 110,
             },
             SubCheck {
                 name: "random_u8",
